@@ -289,7 +289,10 @@ class UBootShell(shell.Shell, UbootStartup):
                 with self.ch.with_stream(ev, show_prompt=False):
                     out = self.ch.read_until_prompt(prompt=override_prompt)
                     if override_prompt == "\n=> ":
-                        # The overridden prompt ate the trailing '\n'
+                        # The overridden prompt ate the trailing '\n' and left
+                        # the '\r' of that line ending behind
+                        if out.endswith("\r"):
+                            out = out[:-1]
                         ev.write("\n")
                         out += "\n"
             ev.data["stdout"] = out
